@@ -102,7 +102,7 @@ def post(prop, tier, seed, tmp, bins, results, notes, log, ENV, VERIF, REPLAYS=N
         notes.append("race detector reports: %d (distinct by outermost library frames: %d)" % (total, len(seen)))
     if prop in ("C17", "C19") and any(r["config"] in ("asm", "instr-asm") for r in results):
         import asmtrace
-        rounds = 2 if tier == "quick" else 24
+        rounds = 2 if tier == "quick" else 12
         res = asmtrace.run(tmp, seed, rounds, ENV, os.path.join(VERIF, "harness"), os.environ.get("VERIF_OVERLAY") or None, log)
         log("asm trace: %s%s" % (json.dumps(res["summary"]), (" INCONCLUSIVE: " + res["inconclusive"]) if res["inconclusive"] else ""))
         asmtrace.apply(prop, res, results, "instr-asm" if prop == "C17" else "asm", notes, REPLAYS, seed)
